@@ -37,3 +37,42 @@ reg("C08", "fault_enumeration",
     assumptions=["error answers to GETs (directory, newNonce) are outside the statement (it speaks of nonces, i.e. POSTs)",
                  "accountDoesNotExist on newOrder/account/keyChange is the C11 re-registration flow, modelled as such"],
     exhaustive_families=["F2p", "F2n"])
+
+reg("C03", "fault_enumeration",
+    "F2: exhaustive single-fault grid: 4 base plans (kp_reuse on/off x matching pair pre-existing or not) x 14 request positions "
+    "(directory, nonce, account, order, each authorization fetch, each challenge, each poll, finalize, download) x 65 network/CA fault kinds, "
+    "two attempts each; F3: random sequences of 1..6 such faults over 1..4 attempts plus a fault-free tail. Storage and hook faults are not "
+    "injected (the statement says 'whatever the CA or the network did'). Non-trivial = at least one attempt ran to its end marker with pair "
+    "snapshots taken at begin and end; distinct = distinct normalised trace hashes among those.",
+    quick=[("F2", 100000), ("F3", 1500)],
+    thorough=[("F2", 100000), ("F3", 60000)],
+    exhaustive_families=["F2"])
+
+reg("C07", "fault_enumeration",
+    "F2 (exhaustive single network/CA fault grid, see C03), F2h (every hook position x exit code kinds), F2s (storage errors at every "
+    "file operation), F3 (random multi-fault sequences over several attempts), F3m (1..6 certificates sharing account and endpoint, any subset "
+    "failing permanently). Oracles: no panic; every attempt ends; one post-operation batch per attempt with a faithful report; >= 1 s between "
+    "a failed attempt and the next one; healthy certificates are issued. Non-trivial = a run in which at least one attempt failed.",
+    quick=[("F2", 100000), ("F3", 800), ("F3m", 600)],
+    thorough=[("F2", 100000), ("F3", 60000), ("F3m", 20000)],
+    exhaustive_families=["F2"])
+
+reg("C02", "exploration",
+    "F4: renewal histories (1..2 certificates, 1..8 issuances each) in which the CA's chain length (1..4) and lifetime change per issuance, "
+    "with restarts and removed files; F6: account histories (contacts, key types, bindings and endpoints change between saves). Oracle: after every "
+    "completed write through the storage seam the real file is read back and must equal exactly the bytes written; after every successful attempt "
+    "the certificate file equals the CA's served body byte for byte and the key file is the CSR's key. Non-trivial = a run in which an existing "
+    "file was rewritten.",
+    quick=[("F4", 1200)],
+    thorough=[("F4", 50000)])
+
+reg("C06", "exploration",
+    "F4: renewal histories over up to 4000 virtual days: CA lifetimes from already-expired to 10 years, renew_delay/random_early_renew from 0s to "
+    "beyond the lifetime, SAN sets that are permutations/supersets/subsets of the configuration (IDN, wildcard, IPv4/IPv6 forms), restarts with either "
+    "file removed or the wall clock stepped, jitter source in modes seeded/min/max. Oracle on virtual arrival times: the next attempt begins within "
+    "[max(t_eval, notAfter-renew_delay-random_early_renew), max(t_eval, notAfter-renew_delay)] +- (2 s + I/O latency bound). Non-trivial = at least one "
+    "evaluation instant (boot or end of a successful attempt) was judged.",
+    quick=[("F4", 1200)],
+    thorough=[("F4", 50000)],
+    assumptions=["wall-clock steps are injected only while the daemon is stopped (a step during a sleep makes 'on time' ambiguous)",
+                 "evaluations after failed attempts are C07's subject, not C06's"])
